@@ -20,7 +20,7 @@ type c10HTTPCfg struct {
 }
 
 func c10HTTPStart(c c10HTTPCfg) (*GwProc, *AuthService) {
-	as := StartAuthService(map[string]string{userA: passA})
+	as := StartAuthService(map[string]string{userA: passA, "alice": "alice-pw"})
 	port := freePort()
 	idp := LoopbackIdP()
 	var sb strings.Builder
@@ -135,6 +135,23 @@ func c10HTTPCases(hasKerberos bool) []rawCase {
 }
 
 // c10Probe: the gateway still serves: /metrics answers 200 and (open endpoint) a websocket handshake packet is answered.
+// c10ProbeLogins: a legitimate client of every configured HTTP authentication scheme still reaches the gateway
+// handler (what one client sent must not spoil the authentication path for the others).
+func c10ProbeLogins(g *GwProc, auth []string) string {
+	for _, a := range auth {
+		scheme := map[string]string{"local": "basic", "ntlm": "ntlm", "kerberos": "kerberos"}[a]
+		if scheme == "" {
+			continue
+		}
+		c, _, st := tourOpen(g, scheme, "RDG_OUT_DATA", "probe-"+scheme, true)
+		if c == nil {
+			return fmt.Sprintf("a legitimate %s login no longer reaches the gateway handler (status %d)", scheme, st)
+		}
+		c.Close()
+	}
+	return ""
+}
+
 func c10Probe(g *GwProc, openEndpoint bool) string {
 	c, err := g.Dial()
 	if err != nil {
@@ -220,6 +237,9 @@ func c10HTTP(env *Env, rep *Report) int {
 		if p := c10Probe(g, open); p != "" {
 			viol("gateway-does-not-serve-before-any-hostile-input", p)
 		}
+		if p := c10ProbeLogins(g, cfg.Auth); p != "" {
+			viol("gateway-does-not-serve-before-any-hostile-input", p)
+		}
 		seen := len(g.Crashed())
 		for _, rc := range c10HTTPCases(hasK) {
 			n++
@@ -255,6 +275,8 @@ func c10HTTP(env *Env, rep *Report) int {
 		}
 		if g.Alive() {
 			if p := c10Probe(g, open); p != "" {
+				viol("other-clients-no-longer-served", p)
+			} else if p := c10ProbeLogins(g, cfg.Auth); p != "" {
 				viol("other-clients-no-longer-served", p)
 			}
 		}
